@@ -156,9 +156,15 @@ func init() {
 			// (c) scaled
 			for _, s := range gen.ScaledFamilies(c.Thorough()) {
 				if strings.HasPrefix(s.Name, "pad") || strings.HasPrefix(s.Name, "lines") || strings.HasPrefix(s.Name, "atlimit") ||
-					strings.HasPrefix(s.Name, "stackdepth") || strings.HasPrefix(s.Name, "nest-") || strings.HasPrefix(s.Name, "vars-") || strings.HasPrefix(s.Name, "jump-") || strings.HasPrefix(s.Name, "constpool-") || strings.HasPrefix(s.Name, "nestthen-") {
+					strings.HasPrefix(s.Name, "stackdepth") || strings.HasPrefix(s.Name, "nest-") || strings.HasPrefix(s.Name, "vars-") || strings.HasPrefix(s.Name, "jump-") || strings.HasPrefix(s.Name, "constpool-") || strings.HasPrefix(s.Name, "nestthen-") || strings.HasPrefix(s.Name, "longtoken-diag") {
 					do(s.Src)
 				}
+			}
+			// strings that run into a line end / the end of input right after a backslash
+			for _, tail := range []string{"", "\n", "\nprint 1", "\r\nprint 1", "\n\"", "\ncd\"\nprint 2"} {
+				do("print \"ab\\" + tail)
+				do("def b \"n\\" + tail)
+				do("print 1\nx = \"q\\\\\\" + tail)
 			}
 			// the jump limit: an oversized operand followed by more source (so that "the next token" differs from "the last token")
 			big := "2" + strings.Repeat("+1", 33000)
